@@ -33,6 +33,45 @@ class StatFaults:
         hbase.VFS_Real.stat = self.orig
 
 
+class Vanish:
+    """Entries that are deleted between the enumeration of the directory and the inspection of
+    its entries: VFS_Real.listdir is wrapped so that, right after the real listdir of the
+    directory has returned, the chosen files are unlinked.  arm() puts them back."""
+
+    def __init__(self, config, dirsel, names):
+        self.config, self.dirsel, self.names = config, dirsel, list(names)
+        self.base = "" if dirsel == "/" else dirsel
+        self.orig = None
+
+    def path(self, n):
+        return c07.fs_path(self.config, self.base + "/" + n)
+
+    def arm(self):
+        for n in self.names:
+            with open(self.path(n), "wb") as f:
+                f.write(b"<html><head><title>Soon gone</title></head></html>\n" if n.endswith(".html") else b"soon gone\n")
+
+    def __enter__(self):
+        self.orig = hbase.VFS_Real.listdir
+        me, orig = self, self.orig
+
+        def listdir(vfs, selector):
+            r = orig(vfs, selector)
+            if selector == me.dirsel and me.names:
+                for n in me.names:
+                    try:
+                        os.unlink(me.path(n))
+                    except OSError:
+                        pass
+            return r
+        hbase.VFS_Real.listdir = listdir
+        self.arm()
+        return self
+
+    def __exit__(self, *a):
+        hbase.VFS_Real.listdir = self.orig
+
+
 def op_c12_faults(job):
     cfg = dict(job.get("config") or {})
     w = DRV.World({"tree": job["tree"], "config": cfg})
@@ -47,8 +86,10 @@ def op_c12_faults(job):
                 over.setdefault("handlers.HandlerMultiplexer", {})["handlers"] = c07.DIR_HANDLERS
             w.spec["config"] = over
             w.configure()
-            with StatFaults(failing):
-                world = c07.describe_world(w.config, w.root, dirsel, stat_fail=set(job.get("stat_faults") or {}))
+            vanish = list(job.get("vanish") or [])
+            with StatFaults(failing), Vanish(w.config, dirsel, vanish) as van:
+                world = c07.describe_world(w.config, w.root, dirsel,
+                                           stat_fail=set(job.get("stat_faults") or {}) | set(vanish))
                 names = [c["name"] for c in world["children"]]
                 groups = {}
                 for p in job["perms"]:
@@ -56,6 +97,7 @@ def op_c12_faults(job):
                         p = list(range(len(names)))
                     elif p == "reversed":
                         p = list(reversed(range(len(names))))
+                    van.arm()
                     r = c07.run_prepare(w.config, dirsel, kind, c07.perm_of(names, p))
                     key = DRV.json.dumps(r, sort_keys=True)
                     groups.setdefault(key, {"result": r, "perms": []})["perms"].append(p)
@@ -63,13 +105,27 @@ def op_c12_faults(job):
                                      "ignorepatt": w.config.get("handlers.dir.DirHandler", "ignorepatt"),
                                      "extstrip": w.config.get("handlers.UMN.UMNDirHandler", "extstrip")}
                 prot = []
-                for rq in job.get("requests", []):
+                def serve(rq, cfgobj):
+                    van.arm()
                     try:
-                        r = c07.with_alarm(5, lambda: DRV.serve_once(w.config, DRV.s2b(rq["data"]), tls=rq["tls"]))
-                        prot.append({"out": r["out"], "exc": r["exc"], "log": r["log"][-2:]})
+                        r = c07.with_alarm(5, lambda: DRV.serve_once(cfgobj, DRV.s2b(rq["data"]), tls=rq["tls"]))
+                        return {"out": r["out"], "exc": r["exc"], "log": r["log"][-2:]}
                     except c07.Timeout:
-                        prot.append({"out": "", "exc": "Timeout", "log": []})
+                        return {"out": "", "exc": "Timeout", "log": []}
+                for rq in job.get("requests", []):
+                    prot.append(serve(rq, w.config))
                 out["protocols"][kind] = prot
+                # the same listing asked for again within the lifetime of the directory cache
+                rep = []
+                if job.get("repeat_requests"):
+                    over2 = {k: dict(v) for k, v in over.items()}
+                    over2.setdefault("handlers.dir.DirHandler", {}).update(
+                        {"cachetime": "180", "cachefile": ".cache.pygopherd." + kind})
+                    w.spec["config"] = over2
+                    w.configure()
+                    for rq in job["repeat_requests"]:
+                        rep.append([serve(rq, w.config), serve(rq, w.config)])
+                out.setdefault("repeats", {})[kind] = rep
         return out
     finally:
         w.close()
